@@ -1,5 +1,6 @@
 (* Proofs for C06. *)
-From Coq Require Import String List ZArith NArith Bool Arith Lia.
+From Coq Require Import String List ZArith NArith Bool Arith Lia Reals.
+From Flocq Require Import Core.Core IEEE754.BinarySingleNaN IEEE754.Binary IEEE754.Bits.
 From RV Require Import Base.Text Base.FExpr Base.F64 Gen.Consts Model.Conc Model.Random Spec.CssIdent Run.C06.
 Import ListNotations.
 Local Open Scope N_scope.
@@ -101,7 +102,7 @@ Proof.
   cbn [length] in Hw. apply nowrap_step in Hw. destruct Hw as [Hb Hw].
   cbn [run_atomic length seq map]. cbv zeta. rewrite (bump_nowrap p c Hb). cbn [snd]. f_equal.
   - change (N.of_nat 1) with 1. lia.
-  - rewrite IH by exact Hw. rewrite <- seq_shift. rewrite map_map. apply map_ext.
+  - rewrite IH by exact Hw. rewrite <- (seq_shift (length s) 1). rewrite map_map. apply map_ext.
     intros k. rewrite Nat2N.inj_succ. lia.
 Qed.
 
@@ -293,7 +294,7 @@ Lemma uidp_ok : params_ok uidp.
 Proof.
   pose proof uidp_checks_ok as H. unfold uidp_checks in H.
   repeat (apply andb_true_iff in H; destruct H as [H ?]).
-  unfold params_ok. repeat split.
+  unfold params_ok. split; [|split; [|split]].
   - apply N.leb_le; assumption.
   - apply N.leb_le; assumption.
   - apply N.leb_le; assumption.
@@ -398,4 +399,51 @@ Lemma random_limit_rejects : forall x v, into_integer x = Some v -> v <= 0 -> po
 Proof.
   intros x v Hi Hv. unfold positive_int. rewrite Hi.
   unfold positive_ok, pos_strict, pos_const. destruct (Z.ltb_spec 0 v); [lia|reflexivity].
+Qed.
+
+(* the i64 -> f64 conversion of the result is exact up to 2^53 (Flocq) *)
+Lemma f_of_Z_B2R z : Z.abs z < 2 ^ 53 ->
+  B2R 53 1024 (f_of_Z z) = IZR z /\ is_finite 53 1024 (f_of_Z z) = true.
+Proof.
+  intros Hz. unfold f_of_Z.
+  pose proof (binary_normalize_correct 53 1024 eq_refl eq_refl mode_NE z 0 false) as H.
+  assert (Hx : F2R (Float radix2 z 0) = IZR z) by (unfold F2R; cbn; ring).
+  rewrite Hx in H.
+  assert (Hg : generic_format radix2 (SpecFloat.fexp 53 1024) (IZR z)).
+  { apply generic_format_FLT. apply (FLT_spec radix2 _ 53 (IZR z) (Float radix2 z 0)).
+    - symmetry; exact Hx.
+    - exact Hz.
+    - cbn. lia. }
+  rewrite round_generic in H; [|apply valid_rnd_N| exact Hg].
+  rewrite Rlt_bool_true in H.
+  - tauto.
+  - rewrite <- abs_IZR. apply Rlt_le_trans with (IZR (2 ^ 53)).
+    + apply IZR_lt. exact Hz.
+    + change (2 ^ 53) with (Zpower radix2 53). rewrite IZR_Zpower by lia. apply bpow_le. lia.
+Qed.
+
+Lemma f_trunc_of_B2R (x : f64) z : B2R 53 1024 x = IZR z -> is_finite 53 1024 x = true -> f_trunc_Z x = Some z.
+Proof.
+  intros HR HF. destruct x as [s|s|s pl Hpl|s m e Hb]; try discriminate.
+  - cbn in HR. apply eq_IZR in HR. subst. reflexivity.
+  - cbn [B2R] in HR. unfold f_trunc_Z. f_equal.
+    destruct (Z.leb_spec 0 e) as [He|He].
+    + unfold F2R in HR. cbn [Fnum Fexp] in HR. rewrite <- IZR_Zpower in HR by lia. rewrite <- mult_IZR in HR.
+      apply eq_IZR in HR. cbn [radix_val radix2] in HR. destruct s; cbn [cond_Zopp] in HR; lia.
+    + assert (Hk : IZR (cond_Zopp s (Zpos m)) = IZR (z * 2 ^ (- e))).
+      { rewrite mult_IZR. change 2 with (radix_val radix2) at 1. rewrite IZR_Zpower by lia. rewrite <- HR.
+        unfold F2R. cbn [Fnum Fexp]. rewrite Rmult_assoc, <- bpow_plus. replace (e + - e) with 0 by lia. cbn. ring. }
+      apply eq_IZR in Hk. assert (0 < 2 ^ (- e)) by (apply Z.pow_pos_nonneg; lia).
+      destruct s; cbn [cond_Zopp] in Hk.
+      * assert (Zpos m = (- z) * 2 ^ (- e)) by lia. rewrite H0. rewrite Z.div_mul by lia. lia.
+      * rewrite Hk. rewrite Z.div_mul by lia. reflexivity.
+Qed.
+
+Lemma random_out_exact : forall r, 1 <= random_int r <= 2 ^ 53 ->
+  f_trunc_Z (random_out r) = Some (random_int r) /\ f_is_finite (random_out r) = true.
+Proof.
+  intros r H. unfold random_out. destruct (Z.eq_dec (random_int r) (2 ^ 53)) as [->|Hne].
+  - split; vm_compute; reflexivity.
+  - assert (Ha : Z.abs (random_int r) < 2 ^ 53) by lia.
+    destruct (f_of_Z_B2R _ Ha) as [HR HF]. split; [apply f_trunc_of_B2R; assumption|exact HF].
 Qed.
